@@ -13,6 +13,8 @@ Part 1 (engine E1, mc.histories) - product breadth-first search over the real ob
                     as a list, a tuple, a generator and a plain iterator (the one-shot forms can be walked only
                     once) - enabled only at end of data
       read(), read(1|2|3), readline(), readlines(), `for line in f` (a fresh iterator each time),
+      read(-1), readline(-1), readline(None), readlines(-1), readlines(None): the spellings of "no limit" that io
+                    documents for the same calls (sizes that do limit a readline / readlines are not called)
       iter(f) + next(it): `iter` obtains an iterator and KEEPS it, `next` advances the kept iterator (next(f) while none
                     has been obtained) - so one iterator is carried across later writes, seeks and rollovers, the way a
                     reader that walks a growing file line by line does (io.BytesIO / io.StringIO support exactly this)
@@ -35,6 +37,14 @@ Part 1 (engine E1, mc.histories) - product breadth-first search over the real ob
   (the oracle's probing reads never leak into a successor).  `ioutils.READ_CHUNK_SIZE` is configuration: native and
   scaled to 2 (module global rebound around every replay, restored afterwards).
 
+  Besides the main searches (words above) a smaller one per class runs over contents with the characters at which
+  str.splitlines() and the codecs readers break a line but a file does not (\\v \\f FS GS RS NEL LS PS; bytes: also a
+  lone \\r): to io.StringIO / io.BytesIO they are ordinary content.  For SpooledStringIO the line-by-line reads are left
+  out of that search (see TEXT_LINE_OPS_ON_BREAK_WORDS: a defect of the unchanged tree, reported with fix C18-4).
+  Directed full-scale scenarios (NOT exhaustive): contents of n items for n around the module's integer constants
+  (found by introspection), the io buffer size, 72 and 64 KiB, written in three pieces with max_size in {1, n//3+2, n,
+  n+1}, seek(p) and five short read programs, every prefix judged like a search transition.
+
 Part 2 (engine E2, mc.inputs) - MultiFileReader: every content of length <= N over {a, b, \\n} (text and bytes) x every
   partition into 1-3 member files (empty members included) x every read program of <= 4 steps over
   read(1|2|3), read(), seek(0).  Oracle: the reads since the last seek(0) concatenate to a prefix of the members'
@@ -46,6 +56,10 @@ Part 2 (engine E2, mc.inputs) - MultiFileReader: every content of length <= N ov
   over), io.BufferedReader, a real binary file, SpooledBytesIO (in memory and rolled over), and readers whose members
   are of different kinds (all text or all bytes).  codecs stream readers are left out: their read(size) is documented
   as approximate, so "a sized read returns at most n" is not theirs to keep.
+  `ioutils.READ_CHUNK_SIZE` is configuration here too: a smaller space is run with it scaled to 2.  Directed full-scale
+  scenarios (NOT exhaustive): member lengths x read amounts around the module constants and powers of two (4-128 KiB),
+  position-numbered contents, programs (amt, amt, read), (amt, seek0, amt, amt, read), (1, amt, read, seek0, amt) and
+  read(amt) until the data ends.
 
 TMPDIR / tempfile.tempdir point to a scratch directory under /dev/shm for the duration of the run; every object is
 closed at the end of its transition; the directory is removed afterwards.
@@ -68,6 +82,18 @@ MAX_SIZES = (1, 3, 8, 10 ** 6)
 READ_NS = (1, 2, 3)
 WL_SHAPES = ('list', 'tuple', 'generator', 'iterator')      # how writelines() is handed its lines
 WL_MAX_ITEMS = 2
+# other spellings of "no limit" (what io documents for read / readline / readlines: a negative size or None).  Sizes
+# that do limit (readline(size > 0), readlines(hint > 0)) and readline(0) are not named by the statement: not called.
+NOLIMIT_OPS = (('read', -1), ('readline', -1), ('readline', None), ('readlines', -1), ('readlines', None))
+# the characters at which str.splitlines() / codecs readers break a line but a text or bytes file does not
+# (\v \f FS GS RS NEL LS PS): to io.StringIO / io.BytesIO they are ordinary content
+BREAK_WORDS = ('p\x0bq\x0c\n', '\x1c\x1d\x1er', '\x85', '\u2028s\u2029')
+# SpooledStringIO.readline() / next() / iteration end a line at those characters on the unchanged tree (reported:
+# fixes/C18-4-...).  Until that fix is in the tree the line-by-line reads are left out for SpooledStringIO on such
+# contents (readlines(), read, seek, tell, getvalue, len stay in); set to True once it is applied - the menu is then the
+# full one and the lone \r joins the alphabet.
+TEXT_LINE_OPS_ON_BREAK_WORDS = True
+LONE_CR_WORD = 'd\re'
 ITER_LIMIT = 64             # no explored content has more than ~10 lines
 
 OP_CPU_S = 3.0              # CPU seconds per operation on the five objects (normally < 1 ms)
@@ -134,12 +160,75 @@ def scratch_tmpdir():
 
 
 # ======================================================================================================
+# bulk contents and sizes (directed scenarios at full scale; not exhaustive)
+
+_BULK = {}
+
+
+def bulk_content(n, variant, multibyte):
+    """A str of exactly n code points whose every stretch tells where it comes from (numbered lines of varying
+    length), so that a skipped, repeated or reordered piece cannot go unnoticed.  variant 'lines': lines of 4-60
+    characters; 'oneline': no line end at all.  multibyte: with 2- and 4-byte characters, else ASCII only (then the
+    UTF-8 form has exactly n bytes)."""
+    key = (variant, multibyte)
+    have = _BULK.get(key, '')
+    if len(have) < n:
+        parts, size, i = [], 0, 0
+        mark = '\u00e9\U0001F600' if multibyte else '~'
+        end = '\n' if variant == 'lines' else '|'
+        while size < 2 * n + 64:
+            line = '%d%s%s%s' % (i, mark, 'x' * (i * 7 % 53), end)
+            parts.append(line)
+            size += len(line)
+            i += 1
+        have = _BULK[key] = ''.join(parts)
+    return have[:n]
+
+
+def bulk_thresholds(ioutils, extra=()):
+    """Sizes at which something may change: the module's own integer constants (found by introspection, e.g.
+    READ_CHUNK_SIZE), the buffer size of the io layer, powers of two from 4 KiB to 128 KiB."""
+    consts = sorted({v for k, v in vars(ioutils).items() if type(v) is int and 256 <= v <= 2 ** 20})
+    ts = set(consts) | {io.DEFAULT_BUFFER_SIZE} | {2 ** k for k in (12, 14, 16, 17)} | set(extra)
+    return consts, sorted(ts)
+
+
+def around(ts):
+    return sorted({t + d for t in ts for d in (-1, 0, 1) if t + d > 0})
+
+
+def brief(x):
+    """Large values in a report: length, both ends."""
+    if isinstance(x, (str, bytes)) and len(x) > 120:
+        return {'len': len(x), 'starts': repr(x[:40]), 'ends': repr(x[-40:])}
+    if isinstance(x, (list, tuple)):
+        if len(x) > 12:
+            return {'items': len(x), 'first': [brief(i) for i in x[:3]], 'last': [brief(i) for i in x[-2:]]}
+        return [brief(i) for i in x]
+    if isinstance(x, dict):
+        return {k: brief(v) for k, v in x.items()}
+    return x
+
+
+def first_difference(a, b):
+    n = min(len(a), len(b))
+    for i in range(n):
+        if a[i] != b[i]:
+            return i
+    return n
+
+
+# ======================================================================================================
 # Part 1: spooled files
 
 def opname(op):
     """Stable operation name used in signatures and in the coverage table (argument shape, never values)."""
     if op[0] == 'read':
-        return 'read()' if len(op) == 1 else 'read(n)'
+        return 'read()' if len(op) == 1 else 'read(n)' if op[1] is not None and op[1] >= 0 else 'read(%r)' % (op[1],)
+    if op[0] in ('readline', 'readlines') and len(op) > 1:
+        return '%s(%r)' % (op[0], op[1])             # one of the NOLIMIT_OPS spellings: -1 or None, a shape
+    if op[0] == 'write_bulk':
+        return 'write(bulk)'
     if op[0] == 'seek':
         return 'seek(p)'
     if op[0] == 'seek_end':
@@ -152,7 +241,7 @@ def opname(op):
 
 
 def is_write(op):
-    return op[0] in ('write', 'writelines')
+    return op[0] in ('write', 'writelines', 'write_bulk')
 
 
 def words_written(op):
@@ -203,10 +292,17 @@ def apply(f, op, kind, ref=False):
             return ('ok', None)
         if name == 'read':
             return ('ok', f.read() if len(op) == 1 else f.read(op[1]))
+        if name == 'write_bulk':
+            data = bulk_content(op[1], op[2], kind == 'text')
+            if kind == 'bytes':
+                data = data.encode('ascii')
+            for piece in range(0, len(data), op[3]):  # op[3] = length of the pieces it is written in
+                f.write(data[piece:piece + op[3]])
+            return ('ok', None)
         if name == 'readline':
-            return ('ok', f.readline())
+            return ('ok', f.readline() if len(op) == 1 else f.readline(op[1]))
         if name == 'readlines':
-            return ('ok', f.readlines())
+            return ('ok', f.readlines() if len(op) == 1 else f.readlines(op[1]))
         if name == 'next':
             it = ITERS.get(id(f))
             return ('ok', next(f if it is None else it))
@@ -261,13 +357,18 @@ def hidden(f, kind):
 
 
 class Spec:
-    def __init__(self, kind, chunk, max_writes, words=WORDS):
+    def __init__(self, kind, chunk, max_writes, words=WORDS, wl_shapes=WL_SHAPES, line_ops=True,
+                 max_sizes=MAX_SIZES):
         self.kind, self.chunk, self.max_writes, self.words = kind, chunk, max_writes, tuple(words)
+        self.wl_shapes, self.line_ops = tuple(wl_shapes), bool(line_ops)
+        self.max_sizes = tuple(max_sizes)
+        self.bulk = False             # bulk contents: values in reports are abbreviated
         self.clsname = 'SpooledBytesIO' if kind == 'bytes' else 'SpooledStringIO'
         self.spell_whence = False     # SpooledStringIO: also seek(p, SEEK_SET) with the whence spelled out (thorough)
         self.config = {'class': self.clsname, 'reference': 'io.BytesIO' if kind == 'bytes' else 'io.StringIO',
-                       'max_sizes': list(MAX_SIZES), 'READ_CHUNK_SIZE': chunk or 'native',
-                       'words': list(self.words), 'max_writes': max_writes}
+                       'max_sizes': list(self.max_sizes), 'READ_CHUNK_SIZE': chunk or 'native',
+                       'words': list(self.words), 'max_writes': max_writes,
+                       'writelines_shapes': list(self.wl_shapes), 'line_by_line_reads': self.line_ops}
 
     @contextlib.contextmanager
     def seam(self):
@@ -284,7 +385,7 @@ class Spec:
     def fresh(self, ioutils):
         ref = io.BytesIO() if self.kind == 'bytes' else io.StringIO()
         cls = getattr(ioutils, self.clsname)
-        var = [cls(max_size=m) for m in MAX_SIZES]
+        var = [cls(max_size=m) for m in self.max_sizes]
         for f in [ref] + var:
             ITERS.pop(id(f), None)
         return ref, var
@@ -318,9 +419,13 @@ class Spec:
             for k in range(WL_MAX_ITEMS + 1):
                 for items in itertools.product(('',) + self.words, repeat=k):
                     if nwrites + len([w for w in items if w]) <= self.max_writes:
-                        ops += [('writelines', shape, items) for shape in WL_SHAPES]
+                        ops += [('writelines', shape, items) for shape in self.wl_shapes]
         ops += [('read',)] + [('read', n) for n in READ_NS]
-        ops += [('readline',), ('readlines',), ('iter',), ('next',), ('iterate',)]
+        if self.line_ops:
+            ops += [('readline',), ('readlines',), ('iter',), ('next',), ('iterate',)]
+            ops += list(NOLIMIT_OPS)
+        else:
+            ops += [('readlines',)] + [o for o in NOLIMIT_OPS if o[0] != 'readline']
         ops += [('seek', p) for p in range(content_len + 1)]
         ops += [('seek_end',), ('tell',), ('getvalue',), ('len',), ('rollover',)]
         # the same positions named relative to the cursor / to the end; io.StringIO accepts seek(0, SEEK_CUR) only
@@ -390,7 +495,7 @@ class Spec:
                 results = [apply(f, op, self.kind) for f in var]
                 label = (name, '%s rolled=%s' % (r_m[0] if r_m[0] == 'ok' else r_m[1], ''.join(
                     'Y' if hidden(f, self.kind)[0] is True else 'n' for f in var)))
-                for m, f, r_i in zip(MAX_SIZES, var, results):
+                for m, f, r_i in zip(self.max_sizes, var, results):
                     if not is_write(op) and r_i != r_m:
                         bad('result', r_m, r_i, m)
                     elif is_write(op) and r_i[0] != 'ok':
@@ -402,7 +507,7 @@ class Spec:
                     key = (content, pos, tuple(hidden(f, self.kind) for f in var))
                     phase = 'read()/getvalue()-afterwards-terminate'
                     # probes (on objects that are thrown away): what a reader would get from here, and the content
-                    for m, f in zip(MAX_SIZES, var):
+                    for m, f in zip(self.max_sizes, var):
                         rest = apply(f, ('read',), self.kind)
                         if rest != ('ok', content[pos:]):
                             bad('rest-of-data-afterwards', ('ok', content[pos:]), rest, m)
@@ -418,6 +523,8 @@ class Spec:
                 self.close(ref, var)
         viols = []
         for what, (exp, obs, ms) in failing.items():
+            if self.bulk:
+                exp, obs = brief(exp), brief(obs)
             viols.append(('C18|op:%s|%s|%s' % (name, self.clsname, what), case, exp, obs,
                           {'failing_max_sizes': ms, 'READ_CHUNK_SIZE': self.chunk or 'native'}, ()))
         if failing:
@@ -428,6 +535,12 @@ class Spec:
 def spooled_searches(tier):
     mw = 3
     out = [Spec('bytes', None, mw), Spec('text', None, mw), Spec('text', 2, mw)]
+    # contents with the line boundaries of str.splitlines() that are no line ends to a file (a smaller space)
+    bw = BREAK_WORDS + ((LONE_CR_WORD,) if TEXT_LINE_OPS_ON_BREAK_WORDS else ())
+    one = ('list',)
+    out += [Spec('bytes', None, 2, words=(BREAK_WORDS[0][2:], BREAK_WORDS[3][:1], LONE_CR_WORD), wl_shapes=one),
+            Spec('text', None, 2, words=bw, wl_shapes=one, line_ops=TEXT_LINE_OPS_ON_BREAK_WORDS),
+            Spec('text', 2, 2, words=bw, wl_shapes=one, line_ops=TEXT_LINE_OPS_ON_BREAK_WORDS)]
     if tier != 'quick':
         out += [Spec('text', 3, mw),
                 Spec('bytes', None, 4, words=('a', '\n', 'b\r\nc')),
@@ -437,6 +550,42 @@ def spooled_searches(tier):
         for spec in out:
             spec.spell_whence = True
     return out
+
+
+def bulk_programs(n):
+    """Short programs run after write(bulk content) and seek(p); every prefix is judged like a search transition."""
+    big = n // 2 + 1
+    return [
+        [('readline',), ('read', 3), ('len',), ('readline',), ('tell',)],
+        [('rollover',), ('read', big), ('readline', -1), ('getvalue',), ('read',)],
+        [('next',), ('readlines',)],
+        [('iterate',)],
+        [('read', big), ('seek_end',), ('write', 'a'), ('seek', n // 2), ('read',)],
+    ]
+
+
+def spooled_bulk_shard(arg):
+    kind, n, variant, consts = arg
+    from boltons import ioutils
+    t = inputs.Tally()
+    for sizes in ((1, n // 3 + 2, n, n + 1),):
+        # written in three pieces: the variants roll over at the first, second, third piece, never / only on demand
+        spec = Spec(kind, None, 2, max_sizes=sizes)
+        spec.bulk = True
+        w = ('write_bulk', n, variant, n // 3 + 1)
+        with spec.seam():
+            for p in sorted({0, n // 2, n - 1} | {c + d for c in consts for d in (0, 1) if c + d < n}):
+                for prog in bulk_programs(n):
+                    hist = (w, ('seek', p))
+                    for op in prog:
+                        viols, key, label = spec.step(ioutils, hist, op)
+                        t.count(nontrivial=True, sample=spec.case(hist, op) if op[0] == 'readlines' else None)
+                        for v in viols:
+                            t.bad(v[0], v[1], v[2], v[3], v[4], v[5])
+                        if key is None:
+                            break
+                        hist += (op,)
+    return t
 
 
 # ======================================================================================================
@@ -533,10 +682,17 @@ def partitions(content):
             yield (content[:i], content[i:j], content[j:])
 
 
-def mfr_run(ioutils, kind, members, prog):
+def mfr_run(ioutils, kind, members, prog, chunk=None):
     """Execute one read program on a fresh reader over fresh members.  Returns None or (sig-suffix, expected,
-    observed); the suffix names the member kind unless it is the plain io.StringIO / io.BytesIO one."""
-    v = _mfr_run(ioutils, kind, members, prog)
+    observed); the suffix names the member kind unless it is the plain io.StringIO / io.BytesIO one.  chunk: the value
+    ioutils.READ_CHUNK_SIZE is rebound to for the duration (configuration, as in part 1)."""
+    old = ioutils.READ_CHUNK_SIZE
+    if chunk:
+        ioutils.READ_CHUNK_SIZE = chunk
+    try:
+        v = _mfr_run(ioutils, kind, members, prog)
+    finally:
+        ioutils.READ_CHUNK_SIZE = old
     if v is not None and kind not in ('text', 'bytes'):
         v = (v[0] + '|members=' + kind.split(':', 1)[1],) + tuple(v[1:])
     return v
@@ -606,7 +762,9 @@ def mfr_programs(maxlen, spellings=False):
 def mfr_shard(arg):
     items, proglen = arg[:2]
     from boltons import ioutils
-    progs = mfr_programs(proglen, spellings=len(arg) > 2 and arg[2] == 'spellings')
+    mode = arg[2] if len(arg) > 2 else None
+    progs = mfr_programs(proglen, spellings=mode == 'spellings')
+    chunk = 2 if mode == 'chunk=2' else None
     t = inputs.Tally()
     hung = False
     for kind, content in items:
@@ -616,14 +774,70 @@ def mfr_shard(arg):
                 with cpu_budget(2.0 if hung else 30.0):
                     for prog in progs:
                         case = {'part': 'mfr', 'kind': kind, 'members': list(members), 'program': list(prog)}
+                        if chunk:
+                            case['READ_CHUNK_SIZE'] = chunk
                         nontrivial = spans and any(i not in ('seek0', 'seek(0,SEEK_SET)') for i in prog)
                         t.count(nontrivial=nontrivial, sample=case if nontrivial and len(prog) > 2 else None)
-                        v = mfr_run(ioutils, kind, members, prog)
+                        v = mfr_run(ioutils, kind, members, prog, chunk)
                         if v is not None:
                             t.bad('C18|mfr:' + v[0], case, v[1], v[2])
             except Hang:
                 hung = True
                 t.bad('C18|mfr:read|terminates', case, 'returns', 'no return within the CPU budget')
+    return t
+
+
+def mfr_bulk_members(kind, lens, variant):
+    is_text = MEMBER_KINDS[(MIXED.get(kind) or (kind,))[0]][0]
+    data = bulk_content(sum(lens), variant, is_text)
+    out, at = [], 0
+    for n in lens:
+        out.append(data[at:at + n])
+        at += n
+    return tuple(out)
+
+
+def mfr_bulk_run(ioutils, kind, lens, variant, prog):
+    v = mfr_run(ioutils, kind, mfr_bulk_members(kind, lens, variant), prog)
+    if v is not None and isinstance(v[1], (str, bytes)) and isinstance(v[2], (str, bytes)):
+        at = first_difference(v[1], v[2])
+        v = (v[0], {'concatenation': brief(v[1]), 'from the first difference': repr(v[1][at:at + 40])},
+             {'read so far': brief(v[2]), 'first difference at': at, 'from there': repr(v[2][at:at + 40])})
+    return v
+
+
+def mfr_bulk_cases(consts, sizes, kinds):
+    """(kind, member lengths, variant, program): a first member of every bulk size followed by a short and a long
+    one, read with every bulk amount - twice, after a rewind, after a one-item read, and until the data ends."""
+    out = []
+    for kind in kinds:
+        for i, first in enumerate(sizes):
+            for j, amt in enumerate(sizes):
+                lens = (first, 5, sizes[(i + j) % len(sizes)])
+                progs = [(amt, amt, 'read'), (amt, 'seek0', amt, amt, 'read'), (1, amt, 'read', 'seek0', amt)]
+                if sum(lens) // amt <= 24:
+                    progs.append((amt,) * (sum(lens) // amt + 2))
+                for prog in progs:
+                    out.append((kind, lens, 'lines', prog))
+    return out
+
+
+def mfr_bulk_shard(cases):
+    from boltons import ioutils
+    t = inputs.Tally()
+    hung = False
+    for kind, lens, variant, prog in cases:
+        case = {'part': 'mfr-bulk', 'kind': kind, 'member_lengths': list(lens), 'content': variant,
+                'program': list(prog)}
+        t.count(nontrivial=True, sample=case)
+        try:
+            with cpu_budget(2.0 if hung else 30.0):
+                v = mfr_bulk_run(ioutils, kind, lens, variant, prog)
+        except Hang:
+            hung = True
+            v = ('read|terminates', 'returns', 'no return within the CPU budget')
+        if v is not None:
+            t.bad('C18|mfr:' + v[0], case, v[1], v[2], tags=('bulk',))
     return t
 
 
@@ -654,6 +868,19 @@ def run(ctx):
             'codec look-ahead buffers); every transition is executed on the real objects and compared'))
         spooled_exhaustive = all(r.fixpoint for _, r in parts)
 
+        # directed, full-scale: contents around the sizes at which something may change (not exhaustive)
+        from boltons import ioutils
+        consts, ts = bulk_thresholds(ioutils)
+        sp_sizes = set(around(set(consts) | {72, io.DEFAULT_BUFFER_SIZE})) | {2 * c + 1 for c in consts} | {2 ** 16 + 1}
+        if not quick:
+            sp_sizes |= set(around(ts)) | {3 * c + 2 for c in consts}
+        sp_sizes = sorted(sp_sizes)
+        bulk_args = [(kind, n, variant, consts) for n in sp_sizes for kind in ('text', 'bytes')
+                     for variant in ('lines', 'oneline')]
+        inputs.run_shards(ctx, spooled_bulk_shard, bulk_args, part='spooled files, bulk contents (directed)', rule=(
+            'every prefix of five short read programs after write(content of n items in three pieces); seek(p), judged '
+            'like a search transition; non-trivial = all (n >= 71)'))
+
         maxlen, proglen = (4, 4) if quick else (5, 4)
         items = mfr_items(maxlen)
         small = [it for it in items if len(it[1]) <= 2]          # first shard: the simplest contents, in order, so
@@ -670,6 +897,23 @@ def run(ctx):
                           part='MultiFileReader, calls spelled differently', rule=(
                               'non-trivial = content non-empty, at least two member files and at least one read in '
                               'the program'))
+        # READ_CHUNK_SIZE as configuration (as in part 1): scaled to 2, on a smaller space
+        ck_len, ck_prog = (3, 3) if quick else (4, 4)
+        ck_items = mfr_items(ck_len)
+        inputs.run_shards(ctx, mfr_shard, [([it for it in ck_items if len(it[1]) <= 1], ck_prog, 'chunk=2')]
+                          + [(sh, ck_prog, 'chunk=2') for sh in core.shards([it for it in ck_items if len(it[1]) > 1],
+                                                                            15)],
+                          part='MultiFileReader, READ_CHUNK_SIZE scaled to 2', rule=(
+                              'non-trivial = content non-empty, at least two member files and at least one read in '
+                              'the program'))
+        # directed, full-scale: member lengths and read amounts around the sizes at which something may change
+        mb_sizes = sorted(set(around(ts)) | {2 * c + 1 for c in consts} | {3 * c + 2 for c in consts})
+        mb_few = sorted(set(around(consts)) | {2 * c + 1 for c in consts} | {2 ** 16 + 1})
+        mb_cases = (mfr_bulk_cases(consts, mb_sizes, ('text', 'bytes'))
+                    + mfr_bulk_cases(consts, mb_few, MFR_KINDS_X_MIXED + (() if quick else MFR_KINDS_X_ROLLED)))
+        inputs.run_shards(ctx, mfr_bulk_shard, [mb_cases[:8]] + core.shards(mb_cases[8:], 47),
+                          part='MultiFileReader, bulk members and amounts (directed)',
+                          rule='non-trivial = all (three non-empty members, sized reads of bulk amounts)')
         # the other member kinds, on a smaller space (their reads cost 10-50x an io.StringIO's)
         if quick:
             spaces = [(MFR_KINDS_X_MEMORY, 3, 3), (MFR_KINDS_X_MIXED + MFR_KINDS_X_ROLLED, 2, 3),
@@ -708,18 +952,41 @@ def run(ctx):
                 {'member_kinds': list(kinds), 'alphabet': list(MFR_ALPHABET_X), 'max_content_len': xlen,
                  'members': '1-3, empty members included', 'program_steps': xprog, 'instructions': list(MFR_INSTR)}
                 for kinds, xlen, xprog in spaces],
+            'MultiFileReader, READ_CHUNK_SIZE scaled to 2': {
+                'alphabet': list(MFR_ALPHABET), 'max_content_len': ck_len, 'members': '1-3, empty members included',
+                'program_steps': ck_prog, 'instructions': list(MFR_INSTR),
+                'kinds': ['text (io.StringIO members)', 'bytes (io.BytesIO members)']},
+            'bulk (directed, NOT exhaustive)': {
+                'module constants found by introspection': consts, 'thresholds': ts,
+                'spooled content sizes': sp_sizes, 'spooled max_sizes': 'n = content size: 1, n//3+2, n, n+1',
+                'spooled positions': '0, n//2, n-1, c and c+1 for each module constant c < n',
+                'spooled programs': [[list(o) for o in pr] for pr in bulk_programs(100)],
+                'MultiFileReader member lengths and read amounts': mb_sizes,
+                'MultiFileReader (mixed member kinds) lengths and amounts': mb_few,
+                'MultiFileReader members': '(first, 5, another bulk size); programs: (amt, amt, read), (amt, seek0, '
+                                           'amt, amt, read), (1, amt, read, seek0, amt), amt until the data ends',
+                'cases': len(mb_cases)},
             'mixed member kinds (member i is of kind [i % 3])': {k: list(v) for k, v in MIXED.items()}}
         cov['exhaustive'] = bool(spooled_exhaustive)
+        cov['directed_parts_not_exhaustive'] = ['spooled files, bulk contents (directed)',
+                                                'MultiFileReader, bulk members and amounts (directed)']
     ctx.assumptions += [
         "write()'s return value is not compared; writes happen only with the position at the end of the data; seeks "
         "only to positions 0..len (DESIGN 5.1)",
         'writelines() is taken as an appending write (items of the right type only; a list, a tuple, a generator, an '
         'iterator); relative seeks with a non-zero offset are explored on SpooledBytesIO only: io.StringIO refuses '
         'them, so there is no reference value for SpooledStringIO',
-        'readline(size), readlines(hint), read(None), truncate() and the aliases pos / buf are not named by the '
-        'statement and are not called',
-        'the reference is io.BytesIO() / io.StringIO() with default arguments (newline="\\n": only \\n ends a line); '
-        'a lone \\r is not in the alphabet',
+        'sizes that limit - readline(size >= 0), readlines(hint > 0) - read(None), truncate() and the aliases pos / buf '
+        'are not named by the statement and are not called; the spellings of "no limit" that io documents are: '
+        + ', '.join('%s(%r)' % o for o in NOLIMIT_OPS),
+        'the reference is io.BytesIO() / io.StringIO() with default arguments (newline="\\n": only \\n ends a line)',
+        'contents with \\v \\f FS GS RS NEL LS PS (line boundaries of str.splitlines() only): explored for both classes; '
+        + ('full menu, lone \\r included' if TEXT_LINE_OPS_ON_BREAK_WORDS else
+           'for SpooledStringIO WITHOUT readline() / next() / iteration and without a lone \\r: on the unchanged tree '
+           'these end a line there, unlike io.StringIO - reported with fix C18-4, excluded until it is applied '
+           '(TEXT_LINE_OPS_ON_BREAK_WORDS)'),
+        'bulk-size scenarios (contents, members and read amounts around module constants, the io buffer size and powers '
+        'of two) are directed samples, not an exhaustive space',
         'explicit rollover() is treated as a configuration event (no-op on the reference): it must keep content and '
         'position',
         'MultiFileReader: a sized read may return fewer items than asked (but not zero) while data remains',
@@ -734,12 +1001,25 @@ def replay(ctx, data):
     case = data['case']
     msgs = []
     with scratch_tmpdir():
+        if case.get('part') == 'mfr-bulk':
+            from boltons import ioutils
+            prog = tuple(i if isinstance(i, str) else int(i) for i in case['program'])
+            try:
+                with cpu_budget(30.0):
+                    v = mfr_bulk_run(ioutils, case['kind'], tuple(case['member_lengths']), case['content'], prog)
+            except Hang:
+                v = ('read|terminates', 'returns', 'no return within the CPU budget')
+            if v is not None:
+                msgs.append('C18|mfr:%s member_lengths=%r program=%r expected=%r observed=%r'
+                            % (v[0], case['member_lengths'], list(prog), v[1], v[2]))
+            return msgs
         if case.get('part') == 'mfr':
             from boltons import ioutils
             prog = [i if isinstance(i, str) else int(i) for i in case['program']]
             try:
                 with cpu_budget(30.0):
-                    v = mfr_run(ioutils, case['kind'], tuple(case['members']), tuple(prog))
+                    v = mfr_run(ioutils, case['kind'], tuple(case['members']), tuple(prog),
+                                case.get('READ_CHUNK_SIZE'))
             except Hang:
                 v = ('read|terminates', 'returns', 'no return within the CPU budget')
             if v is not None:
@@ -749,8 +1029,10 @@ def replay(ctx, data):
         cfg = case['config']
         chunk = cfg['READ_CHUNK_SIZE']
         spec = Spec('bytes' if cfg['class'] == 'SpooledBytesIO' else 'text', None if chunk == 'native' else int(chunk),
-                    cfg['max_writes'], words=cfg['words'])
+                    cfg['max_writes'], words=cfg['words'], wl_shapes=cfg.get('writelines_shapes', WL_SHAPES),
+                    line_ops=cfg.get('line_by_line_reads', True), max_sizes=cfg.get('max_sizes', MAX_SIZES))
         hist = [tuple(tuple(a) if isinstance(a, list) else a for a in op) for op in case['history']]
+        spec.bulk = any(op[0] == 'write_bulk' for op in hist)
         with spec.seam() as ioutils:
             for i in range(len(hist)):
                 viols, key, label = spec.step(ioutils, tuple(hist[:i]), hist[i])
